@@ -40,6 +40,9 @@ type caseT struct {
 	base    int64
 	route   int64
 	creator []int
+	// fault: the route panics in the next end-block (a tss member record with an unparsable address makes
+	// GetAvailableMembers panic inside SendPacket, which recovers it)
+	panicNext bool
 }
 
 var creators = []bandtesting.Account{bandtesting.Alice, bandtesting.Bob}
@@ -83,7 +86,26 @@ func (c *caseT) dump() fx.M {
 	return fx.M{"tunnels": tunnels, "totalBase": json.Number(k.GetTotalFees(c.ctx).TotalBasePacketFee.AmountOf("uband").String()), "activeIdx": active}
 }
 
+// noReceipt lists the stored packets that carry no route receipt (a packet is stored only when its route accepted it)
+func (c *caseT) noReceipt() [][]uint64 {
+	out := [][]uint64{}
+	k := c.app.TunnelKeeper
+	for id := uint64(1); id <= c.n; id++ {
+		t, err := k.GetTunnel(c.ctx, id)
+		if err != nil {
+			continue
+		}
+		for q := uint64(1); q <= t.Sequence+2; q++ {
+			if pk, err := k.GetPacket(c.ctx, id, q); err == nil && pk.Receipt == nil {
+				out = append(out, []uint64{id, q})
+			}
+		}
+	}
+	return out
+}
+
 func (c *caseT) emit(m fx.M, errS string, withErr bool) {
+	m["obs"] = fx.M{"noReceipt": c.noReceipt()}
 	out := c.dump()
 	if withErr {
 		out["err"] = errS
@@ -165,7 +187,21 @@ func (c *caseT) failedTunnels(ev sdk.Events) []uint64 {
 func (c *caseT) endBlock() {
 	feeds := c.feeds()
 	ctx := c.ctx.WithEventManager(sdk.NewEventManager())
+	var saved *tsstypes.Member
+	if c.panicNext && c.g != nil {
+		if mem, err := c.app.TSSKeeper.GetMember(c.ctx, c.g.GroupID, 1); err == nil {
+			saved = &mem
+			bad := mem
+			bad.Address = "not-a-bech32-address"
+			c.app.TSSKeeper.SetMember(c.ctx, bad)
+			c.tr.Tag("fault-route-panics")
+		}
+	}
+	c.panicNext = false
 	e := fx.Try(func() error { return tunnel.EndBlocker(ctx, c.app.TunnelKeeper) })
+	if saved != nil {
+		c.app.TSSKeeper.SetMember(c.ctx, *saved)
+	}
 	failed := c.failedTunnels(ctx.EventManager().Events())
 	m := fx.M{"op": "endBlock", "feeds": feeds, "now": c.now / 1, "routeFailed": failed}
 	if e != "" {
@@ -299,6 +335,10 @@ func runCase(app *fx.App, tr *fx.Trace, r *fx.Rng, caseNo int) {
 			app.Fund(c.ctx, sdk.MustAccAddressFromBech32(t.FeePayer), "uband", sdkmath.NewInt(amt))
 			c.emit(fx.M{"op": "fund", "id": id, "amt": amt}, "", false)
 		default:
+			if r.Chance(1, 2) {
+				c.panicNext = true
+				continue
+			}
 			// route fault: every member resets its nonces
 			if c.g != nil {
 				for id := 1; id <= int(c.g.N); id++ {
